@@ -12,7 +12,10 @@ def c18Facts : Facts :=
 def c18Id (chain h : Nat) : Nat := 2 * h + chain + 10
 def c18BM (chain h : Nat) : BM := { height := h, hash := c18Id chain h, prev := if h = 0 then 0 else c18Id chain (h - 1) }
 
-/-- `b <local|-1> <last> <lastBlockNewer 0|1> <resp…>`, resp = `-` or `chain.height` per requested height local+1.. -/
+/-- `b <local|-1> <last> <lastBlockNewer 0|1> <resp…>`, resp = `-` or `chain.height` per requested height local+1..;
+`g.0` is a genesis proof that fails its own `Prove` (a real proof with a foreign tree proof).  The model's proofs fail
+`Prove` only through their link; for `Build` a response whose job fails is a failed batch whatever the reason, so such a
+proof is given to the model as the other failing response, "not found". -/
 def stepC18 (ts : List String) : String :=
   match ts with
   | "b" :: loc :: last :: newer :: resps =>
